@@ -174,6 +174,7 @@ def main(tier, replay=None):
     kinds = {}
     nontrivial = set()
     failures = []          # (seq id, rows, index, kind)
+    kf_hits = []
     for sid, rows in seqs:
         lines += len(rows)
         t = False
@@ -190,7 +191,20 @@ def main(tier, replay=None):
         i, kind = first_failure(rows)
         if i is not None:
             failures.append((sid, rows, i, kind))
+        # the recorded finding: an iterator of a write transaction that has touched the range yields the committed
+        # entries as they are followed by the net puts (what the design does, theorem C11_seek_write_tx) instead of the
+        # transaction's view; reported under its own key, once, with the first sequence showing it
+        for j, (op, impl, ref, model) in enumerate(rows):
+            if ref.startswith("KF:"):
+                kf_hits.append((sid, [r[0] for r in rows[:j + 1]], op, impl, ref[3:]))
+                break
 
+    if kf_hits:
+        sid, ops, op, impl, want = min(kf_hits, key=lambda h: len(h[1]))
+        c.violation("write-tx-iterator-not-view",
+                    "sequence %s (%d ops): `%s` on an iterator of the write transaction returned %s, the transaction's own view requires %s "
+                    "(%d sequences of this run show it)" % (sid, len(ops), op, impl[:200], want[:200], len(kf_hits)),
+                    {"ops": ops, "failing_op": op, "impl": impl, "view": want, "rerun": "/verif/build/bin/c11 -replay <file with these ops, one per line>"})
     seen_keys = set()
     diffs_only = []
     failures.sort(key=lambda f: (0 if f[3] == "ref" else 1, f[2]))
